@@ -283,4 +283,11 @@ var regressionInputs = []string{
 	"SELECT 1 ORDER BY x COLLATE 'a\nb'",
 	"INSERT INTO t FROM INFILE 'a\nb' COMPRESSION 'g\nz'",
 	"SELECT 1 INTO OUTFILE 'a\nb'",
+	"SELECT CASE WHEN 1 THEN 2 END AS format",
+	"SELECT * REPLACE (1 AS format) FROM t",
+	"ALTER TABLE t ADD STATISTICS c TYPE countmin(5)",
+	"SELECT CAST(1 AS Foo(NULL))",
+	"INSERT INTO t VALUES (1); SELECT [1, 2]",
+	"SELECT * FROM t SAMPLE [1]",
+	"SELECT 1 FROM t SAMPLE 1e-9999999999",
 }
